@@ -17,7 +17,7 @@
 
    Node (one action per code step; the numbers are lines of sync/sync.go at the pinned commit):
      Spawn                 syncBlocks:509  fetchers.Go(fetcherTask(nextHeight)); nextHeight++
-     FetchExit / FetchCall fetcherTask:183-187  ctx check; dataSource.BlockByNumber
+     FetchExit / FetchCheck / FetchCall   fetcherTask:183-187  ctx check; dataSource.BlockByNumber
      FetchReturn           fetcherTask:188-205  block -> callback "verify"; error -> isReverting
      IsRevFast             isReverting:217-226  exit 1: not waiting for the very next block
      IsRevCall/IsRevReturn isReverting:229-258  exit 2: remote head newer / unavailable;
@@ -39,7 +39,13 @@
    Second switch FixRevertVerify (found by TLC on this spec, see RevertReturn):
      FALSE = the code as it is: revertTask compares the local head with the header of an
              UNVERIFIED remote block, so a corrupted answer (wrong hash) reverts a block the source
-             still has;  TRUE = the remote block is verified first (a bad one ends the task). *)
+             still has;  TRUE = the remote block is verified first (a bad one ends the task).
+   Third switch FixUnderflow (found by TLC's liveness check on this spec, see IsRevReturn):
+     FALSE = the code as it is: isReverting returns remoteHeight-1 as uint64; for a remote head at
+             height 0 (the source replaced its whole chain by a single different genesis block while
+             the node is higher) this is 2^64-1, revertTask then asks the source for the block at
+             the local head's height, which it does not have, gives up, restarts, and repeats for
+             ever: the node never converges;  TRUE = 0 is returned for remote height 0. *)
 EXTENDS Integers, Sequences, FiniteSets, TLC
 
 CONSTANTS
@@ -54,7 +60,8 @@ CONSTANTS
   MaxFaults,       \* budget of injected errors / corrupt blocks / stale heads
   MaxPolls,        \* pollLatest iterations (one per minute in the code)
   FixH13,
-  FixRevertVerify
+  FixRevertVerify,
+  FixUnderflow
 
 VARIABLES
   versions, nextTag, srcSteps, nReorgs, faults,           \* source / environment
@@ -142,9 +149,14 @@ BlockRespCost(v0, h, resp, ctxDone) ==
   CASE resp.r = "ok"  -> 0
     [] resp.r = "bad" -> 1
     [] OTHER -> IF ctxDone \/ \E v \in VerRange(v0) : ~HasBlock(v, h) THEN 0 ELSE 1
-BlockResps(v0, h) ==
-  {[r |-> "err", ver |-> 0, tag |-> 0]} \cup
-  {[r |-> k, ver |-> v, tag |-> BlockAt(v, h)] : k \in {"ok", "bad"}, v \in {x \in VerRange(v0) : HasBlock(x, h)}}
+\* corr: what a corrupted copy looks like to code that reads only Hash and ParentHash of the header
+\* ("hash": the hash differs; "parent": the parent hash differs; "other": neither)
+BlockRespsC(v0, h, corrs) ==
+  {[r |-> "err", ver |-> 0, tag |-> 0, corr |-> "none"]} \cup
+  {[r |-> "ok", ver |-> v, tag |-> BlockAt(v, h), corr |-> "none"] : v \in {x \in VerRange(v0) : HasBlock(x, h)}} \cup
+  {[r |-> "bad", ver |-> v, tag |-> BlockAt(v, h), corr |-> c] : v \in {x \in VerRange(v0) : HasBlock(x, h)}, c \in corrs}
+BlockResps(v0, h) == BlockRespsC(v0, h, {"other"})          \* the fetch pipeline verifies: any corruption is the same
+RevertResps(v0, h) == BlockRespsC(v0, h, {"hash", "parent", "other"})
 
 \* a latest-header answer: r = "ok" (height rh of version ver; stale when below its tip) | "err"
 LegalLatestResp(v0, resp) ==
@@ -172,13 +184,18 @@ Spawn ==
   /\ nextFetch' = nextFetch + 1
   /\ UNCHANGED <<srcVars, faults, local, cancelled, weff, vq, rv, modeVars, curr, revSince, seenVers>>
 
-FetchExit(i) ==                       \* ctx.Done observed at the top of the retry loop
+FetchExit(i) ==                       \* top of the retry loop: ctx.Done
   /\ fq[i].st = "run" /\ cancelled
   /\ SetFq(i, [fq[i] EXCEPT !.st = "done", !.kind = "none"])
   /\ UNCHANGED <<srcVars, faults, local, cancelled, nextFetch, weff, vq, rv, modeVars, curr, revSince, seenVers>>
 
+FetchCheck(i) ==                      \* top of the retry loop: ctx not done (a reset may still slip in before the call)
+  /\ fq[i].st = "run" /\ ~cancelled
+  /\ SetFq(i, [fq[i] EXCEPT !.st = "go"])
+  /\ UNCHANGED <<srcVars, faults, local, cancelled, nextFetch, weff, vq, rv, modeVars, curr, revSince, seenVers>>
+
 FetchCall(i, rid) ==                  \* observable: request BlockByNumber(h)
-  /\ fq[i].st = "run"
+  /\ fq[i].st = "go"
   /\ SetFq(i, [fq[i] EXCEPT !.st = "wait", !.v0 = Len(versions), !.rid = rid])
   /\ UNCHANGED <<srcVars, faults, local, cancelled, nextFetch, weff, vq, rv, modeVars, curr, revSince, seenVers>>
 
@@ -216,7 +233,8 @@ IsRevReturn(i, resp) ==               \* observable: exits 2 and 3
           IF hl + 1 > Len(local) \/ local[hl + 1] = resp.tag
           THEN SetFq(i, [fq[i] EXCEPT !.st = "run"])
           ELSE SetFq(i, [fq[i] EXCEPT !.st = "done", !.kind = "revert",
-                                       !.lv = IF resp.h = 0 THEN INF ELSE resp.h - 1])
+                                       !.lv = IF resp.h = 0 THEN (IF FixUnderflow THEN 0 ELSE INF)
+                                             ELSE resp.h - 1])
   /\ UNCHANGED <<srcVars, local, cancelled, nextFetch, weff, vq, rv, modeVars, curr, revSince>>
 
 \* fetch callbacks run in submission order; each submits a verifier task (blocks while the pool is full)
@@ -321,14 +339,12 @@ RevertReturn(resp) ==                 \* observable: the answer; compare hashes
             ELSE rv' = [rv EXCEPT !.st = "rev", !.cont = (ParentOf(resp.tag) # ParentOf(HeadTag(local)))]
                  /\ UNCHANGED cancelled
        [] resp.r = "bad" ->
-            \* the code compares header fields of an unverified block: a corrupted hash looks like a
-            \* different block with the same parent; any other corruption goes unnoticed
+            \* the code compares Hash / ParentHash of an UNVERIFIED block
             IF FixRevertVerify THEN FinishRevert
-            ELSE \/ (IF resp.tag = HeadTag(local) THEN FinishRevert
-                     ELSE rv' = [rv EXCEPT !.st = "rev", !.cont = (ParentOf(resp.tag) # ParentOf(HeadTag(local)))]
-                          /\ UNCHANGED cancelled)
-                 \/ (rv' = [rv EXCEPT !.st = "rev", !.cont = (ParentOf(resp.tag) # ParentOf(HeadTag(local)))]
-                     /\ UNCHANGED cancelled)
+            ELSE LET differs == (resp.corr = "hash") \/ resp.tag # HeadTag(local)
+                     cont    == (resp.corr = "parent") \/ ParentOf(resp.tag) # ParentOf(HeadTag(local))
+                 IN IF differs THEN rv' = [rv EXCEPT !.st = "rev", !.cont = cont] /\ UNCHANGED cancelled
+                    ELSE FinishRevert
   /\ UNCHANGED <<srcVars, local, nextFetch, weff, fq, vq, modeVars, curr, revSince>>
 
 RevertDo ==                           \* observable: Reverted(head) after a hash comparison
@@ -374,7 +390,7 @@ IsRevReturnAny(i) ==
   /\ \E resp \in LatestResps(fq[i].v0) : Budget(LatestRespCost(resp, cancelled)) /\ IsRevReturn(i, resp)
 RevertReturnAny ==
   /\ rv.on /\ rv.st = "wait"
-  /\ \E resp \in BlockResps(rv.v0, Len(local) - 1) :
+  /\ \E resp \in RevertResps(rv.v0, Len(local) - 1) :
        Budget(BlockRespCost(rv.v0, Len(local) - 1, resp, cancelled)) /\ RevertReturn(resp)
 PollReturnAny ==
   /\ poll.st = "wait"
@@ -382,7 +398,7 @@ PollReturnAny ==
 
 NodeInternal ==
   \/ Spawn
-  \/ \E i \in 1..Len(fq) : FetchExit(i) \/ IsRevFast(i)
+  \/ \E i \in 1..Len(fq) : FetchExit(i) \/ FetchCheck(i) \/ IsRevFast(i)
   \/ FetchCallback
   \/ \E i \in 1..Len(vq) : VerifyDone(i)
   \/ VerifyFail \/ StoreSkip \/ StoreErr \/ StoreMismatch \/ RevertStart
@@ -460,6 +476,7 @@ Fairness ==
   /\ WF_vars(PollCall(0)) /\ WF_vars(PollReturnAny)
   /\ \A i \in Slots :
        /\ WF_vars(i <= Len(fq) /\ FetchExit(i))
+       /\ WF_vars(i <= Len(fq) /\ FetchCheck(i))
        /\ WF_vars(i <= Len(fq) /\ FetchCall(i, 0))
        /\ WF_vars(i <= Len(fq) /\ FetchReturnAny(i))
        /\ WF_vars(i <= Len(fq) /\ IsRevFast(i))
